@@ -49,7 +49,8 @@ def main():
         use126 = "synctest" in open(demo).read() or (cmd and "1.26" in cmd)
         gobin = "GOTOOLCHAIN=local go1.26.8" if use126 else "go"
         runname = re.findall(r"^func (Test\w+)", open(demo).read(), re.M)
-        tcmd = "%s test -vet=off -count=1 -run '^(%s)$' ./%s" % (gobin, "|".join(runname), pkgdir)
+        tags = "-tags verif " if re.search(r"^//go:build .*verif", open(demo).read(), re.M) else ""
+        tcmd = "%s test %s-vet=off -count=1 -run '^(%s)$' ./%s" % (gobin, tags, "|".join(runname), pkgdir)
         # 1. demonstration passes on the unchanged tree
         rc0, out0 = sh(tcmd, cwd=wt, timeout=900)
         meta["demo_cmd"] = tcmd
@@ -85,8 +86,9 @@ def main():
         tag_dirs = os.path.join("/verif/build/alt")
     d = os.path.join("/verif/seeded", name)
     os.makedirs(d, exist_ok=True)
-    shutil.copy(patch, os.path.join(d, "patch.diff"))
-    shutil.copy(demo, os.path.join(d, os.path.basename(demo)))
+    for src, dst in ((patch, os.path.join(d, "patch.diff")), (demo, os.path.join(d, os.path.basename(demo)))):
+        if os.path.abspath(src) != os.path.abspath(dst):
+            shutil.copy(src, dst)
     json.dump(meta, open(os.path.join(d, "meta.json"), "w"), indent=1)
     print(json.dumps({k: meta[k] for k in meta if k not in ("demo_output_tail_with_change",)}, indent=1)[:3000])
 
